@@ -2,6 +2,8 @@
 #   D-cases (part 1, engine E1): KernelSocketStream read/readv/write/writev/recv/send/sendfile over a scripted
 #           kernel (interposed recv/send/recvmsg/sendmsg/sendfile + scripted MasterEventEngine) vs coq/C10/C10_Model.v
 #   E-cases (part 2, engine E5): io/epoll.cpp over an interposed epoll kernel vs coq/C10/C10_Engine.v
+#   N-cases (part 2b, engine E5): io/epoll-ng.cpp over the same interposed kernel (four interest lists, nested epoll) vs
+#           coq/C10/C10_EngineNG.v
 #   R-cases (part 3): real-kernel socket run (search oracle only; the model side echoes nothing)
 import re, itertools
 from vlib import *
@@ -73,7 +75,7 @@ def inject(chunks, pos, fault, rng):
 class Check(DiffCheck):
     id = 'C10'
     coq_dirs = ['Base', 'C10']
-    coq_targets = ['C10/C10_Proofs.vo', 'C10/C10_ProofsLoop.vo', 'C10/C10_ProofsTop.vo', 'C10/C10_ProofsEngine.vo', 'C10/C10_ProofsRearm.vo', 'C10/C10_ProofsAgree.vo', 'C10/C10_ProofsAgree2.vo', 'C10/C10_ProofsAgree3.vo']
+    coq_targets = ['C10/C10_Proofs.vo', 'C10/C10_ProofsLoop.vo', 'C10/C10_ProofsTop.vo', 'C10/C10_ProofsEngine.vo', 'C10/C10_ProofsRearm.vo', 'C10/C10_ProofsAgree.vo', 'C10/C10_ProofsAgree2.vo', 'C10/C10_ProofsAgree3.vo', 'C10/C10_EngineNG.vo', 'C10/C10_ProofsNG.vo', 'C10/C10_ProofsNG2.vo']
     properties_v = 'C10/C10_Properties.v'
     extract_v = 'C10/C10_Extract.v'
     runner_ml = 'ocaml/C10_run.ml'
@@ -82,7 +84,11 @@ class Check(DiffCheck):
             'bytes into kernel answers, for readv/writev (and read/write on one buffer), clean and with one fault '
             '(EAGAIN+ready / EAGAIN+timeout / EAGAIN+late event / EAGAIN+interrupt / EINTR / EOF / error) at a position; recv/send/'
             'recv(iov)/send(iov)/sendfile small exhaustive; PRNG longer scripts (<=6 iovecs x <=300 bytes, random faults and deadlines). '
-            'non-trivial = a partial transfer, an EAGAIN/EINTR, or a zero-length iovec')
+            'non-trivial = a partial transfer, an EAGAIN/EINTR, or a zero-length iovec.  E-/N-cases: scripts of wait_for_fd threads, '
+            'readiness changes, polls, interrupts, virtual-time sleeps, cancel_wait, close over the interposed epoll kernel for '
+            'io/epoll.cpp (E) and io/epoll-ng.cpp (N): hand-made families (every direction pair on one descriptor x readiness mask x '
+            'event/timeout/interrupt order; the reap->notify window; >16 ready descriptors) plus PRNG scripts; non-trivial = shared '
+            'descriptor, >16 waiters, or a timeout/interrupt after a poll')
     assumptions = ['the kernel is an oracle: each data syscall returns min(n, requested) for some n>=0, or -1 with an errno; each wait '
                    'returns ready / timeout / interrupted; data syscalls take no time',
                    'Timeout arithmetic does not saturate (m_timeout < 2^63 or exactly -1 = never)']
@@ -104,6 +110,7 @@ class Check(DiffCheck):
             cs += [l.strip() for l in open(cp) if l.strip() and not l.startswith('#')]
         cs += self.gen_D(tier, rng)
         cs += self.gen_E(tier, rng)
+        cs += self.gen_N(tier, rng)
         cs += self.gen_R(tier, rng)
         return list(dict.fromkeys(cs))
 
@@ -262,6 +269,80 @@ class Check(DiffCheck):
             else: steps.append('x%d' % rng.choice(fds))
         return 'E ' + ','.join(steps)
 
+
+    # ------------------------------------------------------------------ part 2b: epoll-ng scripts
+    def gen_N(self, tier, rng):
+        cs = []
+        dirs = (1, 2, 4)
+        # one waiter, every direction (and every multi-direction mask) x every readiness mask; the event is reaped by one
+        # poll and delivered by the next; the same with the waiter timing out / being interrupted / another waiter timing
+        # out BETWEEN reap and notify (the stale-pointer window)
+        for d in (1, 2, 4, 3, 5, 6, 7):
+            for m in (1, 4, 5, 8, 16, 8192, 29):
+                cs.append('N w1:5:%d:inf,r5:%d,p,p,p' % (d, m))
+                cs.append('N w1:5:%d:7,r5:%d,p,t10,p,p' % (d, m))
+                cs.append('N w1:5:%d:inf,r5:%d,p,i1:4,p,p' % (d, m))
+                cs.append('N w1:5:%d:inf,w2:6:1:7,r5:%d,p,t10,p' % (d, m))
+                cs.append('N w1:5:%d:inf,r5:%d,p,w2:6:2:0,p' % (d, m))
+                cs.append('N w1:5:%d:9,r5:%d,t10,p,p' % (d, m))
+        # two waiters on one descriptor, every pair of directions (same direction = EEXIST), every order of events
+        for d1 in (1, 2, 4, 3, 6):
+            for d2 in (1, 2, 4, 5):
+                for m in (1, 4, 5, 8, 16):
+                    cs.append('N w1:5:%d:inf,w2:5:%d:inf,r5:%d,p,p,r5:%d,p,p,r5:13,p,p' % (d1, d2, m, m ^ 5))
+                    cs.append('N w1:5:%d:7,w2:5:%d:inf,t10,r5:%d,p,p,r5:5,p,p' % (d1, d2, m))
+                    cs.append('N w1:5:%d:inf,w2:5:%d:9,r5:%d,p,t10,r5:5,p,p' % (d1, d2, m))
+                    cs.append('N w1:5:%d:inf,w2:5:%d:inf,i1:4,r5:%d,p,w3:5:%d:inf,p,r5:0,p,r5:5,p,p' % (d1, d2, m, d1))
+        # three waiters: reader + writer + a second waiter in one direction (the roll-back of a failed add_interest)
+        for d1, d2, d3 in ((1, 2, 2), (1, 2, 4), (1, 4, 4), (2, 4, 4), (1, 2, 1), (2, 1, 1), (4, 1, 1), (3, 4, 4), (1, 6, 2), (1, 6, 4), (5, 2, 2)):
+            for m in (1, 4, 5, 8):
+                cs.append('N w1:5:%d:inf,w2:5:%d:inf,w3:5:%d:inf,r5:%d,p,p,r5:13,p,p' % (d1, d2, d3, m))
+                cs.append('N w1:5:%d:21,w2:5:%d:inf,w3:5:%d:3,r5:%d,p,p,t30,p' % (d1, d2, d3, m))
+        # more ready descriptors than one epoll_wait returns (16 slots per poller)
+        for n in (15, 16, 17, 20, 33):
+            st = ['w%d:%d:%d:inf' % (i + 1, 10 + i, 1 + (i % 2)) for i in range(n)]
+            st += ['r%d:5' % (10 + i) for i in range(n)]
+            cs.append('N ' + ','.join(st + ['p', 'p', 'p', 'p', 'p', 'p']))
+            st = ['w%d:%d:1:%s' % (i + 1, 10 + i, 'inf' if i % 3 else str(5 + 2 * i)) for i in range(n)]
+            st += ['r%d:1' % (10 + i) for i in range(n)]
+            cs.append('N ' + ','.join(st + ['p', 't40', 'p', 'k', 'p', 'i1:4', 'p', 'p', 'p']))
+        nrand = 900 if tier == 'quick' else 25000
+        for _ in range(nrand):
+            cs.append(self.rand_N(rng))
+        return cs
+
+    def rand_N(self, rng):
+        fds = rng.sample(range(3, 12), rng.randrange(1, 4))
+        now = 1000; used = set(); nt = 0
+        steps = []
+        style = rng.randrange(3)          # 0: single directions, 1: some multi-direction waiters, 2: heavy sharing of one fd
+        if style == 2: fds = fds[:1]
+        for _ in range(rng.randrange(3, 28)):
+            x = rng.random()
+            if x < 0.30 and nt < 9:
+                nt += 1
+                fd = rng.choice(fds); d = rng.choice([1, 1, 2, 2, 4])
+                y = rng.random()
+                if style == 1 and y < 0.4: d = rng.choice([3, 5, 6, 7])
+                if y < 0.03: d = rng.choice([0, 8])
+                if y > 0.985: fd = -1
+                if rng.random() < 0.45: tmo = 'inf'
+                else:
+                    tmo = rng.choice([0, 1, 3, 5, 7, 9, 11, 21, 35])
+                    while tmo and (now + tmo) in used: tmo += 2
+                    if tmo: used.add(now + tmo)
+                steps.append('w%d:%d:%d:%s' % (nt, fd, d, tmo))
+            elif x < 0.52:
+                steps.append('r%d:%d' % (rng.choice(fds), rng.choice(self.MASKS)))
+            elif x < 0.78: steps.append('p')
+            elif x < 0.84 and nt:
+                steps.append('i%d:%d' % (rng.randrange(1, nt + 1), rng.choice([4, 125, 110, 11])))
+            elif x < 0.95:
+                d = rng.choice([2, 4, 6, 10, 20, 40]); now += d; steps.append('t%d' % d)
+            elif x < 0.98: steps.append('k')
+            else: steps.append('x%d' % rng.choice(fds))
+        return 'N ' + ','.join(steps)
+
     # ------------------------------------------------------------------ part 3: real kernel sockets (search oracle only)
     def gen_R(self, tier, rng):
         cs = []
@@ -297,6 +378,17 @@ class Check(DiffCheck):
             ws = [x[1:].split(':') for x in st if x[0] == 'w']
             fds = [w[1] for w in ws]
             return len(set(fds)) < len(fds) or sum(1 for x in st if x[0] == 'r') > 16 or any(x[0] == 'c' for x in st)
+        if case[0] == 'N':
+            st = case.split(' ')[1].split(',')
+            ws = [x[1:].split(':') for x in st if x[0] == 'w']
+            fds = [w[1] for w in ws]
+            if len(set(fds)) < len(fds) or len(ws) > 16: return True
+            # a timeout / interrupt after a poll: the window between reap and notify
+            seen_p = False
+            for x in st:
+                if x[0] == 'p': seen_p = True
+                elif x[0] in 'ti' and seen_p: return True
+            return False
         return True
 
     def category(self, case):
@@ -319,6 +411,16 @@ class Check(DiffCheck):
             if any(x[0] == 'i' for x in st): tags.append('interrupt')
             if len(ws) > 16: tags.append('batch>16')
             return '+'.join(tags)
+        if case[0] == 'N':
+            st = case.split(' ')[1].split(',')
+            ws = [x[1:].split(':') for x in st if x[0] == 'w']
+            tags = ['N:epoll-ng']
+            if len(set((w[1]) for w in ws)) < len(ws): tags.append('shared-fd')
+            if any(int(w[2]) not in (0, 1, 2, 4, 8) for w in ws): tags.append('multi-dir')
+            if any(w[3] != 'inf' for w in ws): tags.append('timeout')
+            if any(x[0] == 'i' for x in st): tags.append('interrupt')
+            if len(ws) > 16: tags.append('batch>16')
+            return '+'.join(tags)
         return case.split(' ', 1)[0]
 
     def known_class(self, case):
@@ -336,6 +438,7 @@ class Check(DiffCheck):
         if out.startswith('CRASH'): return 'implementation crashed: ' + out
         if case[0] == 'D': return self.oracle_D(case, out)
         if case[0] == 'E': return self.oracle_E(case, out)
+        if case[0] == 'N': return self.oracle_N(case, out)
         if case[0] == 'R': return None if out == 'R ok' else 'real-kernel socket run: ' + out
         return None
 
@@ -574,6 +677,205 @@ class Check(DiffCheck):
         if blocked != sorted(wait): return 'threads blocked at the end %s, expected %s' % (blocked, sorted(wait))
         if int(m.group(7)) != now: return 'virtual clock ended at %s, expected %d' % (m.group(7), now)
         if any(c[0] in 'wpit' for c in steps) and m.group(5): return '_events_remain not drained by wait_and_fire_events'
+        return None
+
+
+    # part 2b: epoll-ng.  Specification-level reference evaluated on the implementation's log: who may / must return
+    # with what, and the four kernel interest lists reconstructed from the logged epoll_ctl / epoll_wait calls.
+    NDIR = {1: 1, 2: 2, 3: 4}                                  # poller index -> photon direction bit
+    NBITS = {1: 8217, 2: 28, 3: 24}                            # what may be reported through poller p: READBITS, WRITEBITS, ERR|HUP
+    NEV = {1: 1 | 8192, 2: 4, 3: 8}                            # the epoll events a registration in poller p must request
+    def oracle_N(self, case, out):
+        if out.startswith('HARNESS-BAD'): return 'harness invariant broken: ' + out[:200]
+        m = re.match(r'log=(\S*) k0=(\S*) k1=(\S*) k2=(\S*) k3=(\S*) rem=(\S*) blocked=(\S*) now=(\d+) stale=(\d)$', out)
+        if not m: return 'unparsable output: %r' % out[:200]
+        if m.group(9) != '0': return 'the kernel handed out the Event pointer of a waiter that had already returned (stale waiter access)'
+        steps = case.split(' ')[1].split(',')
+        chunks = m.group(1).split('|')
+        init, chunks = chunks[0], chunks[1:]
+        if len(chunks) != len(steps): return 'log has %d step sections for %d steps' % (len(chunks), len(steps))
+        now = 1000
+        ready = {}
+        wait = {}                         # t -> dict(fd, ints, dl, orphan)
+        kern = {0: {}, 1: {}, 2: {}, 3: {}}   # p -> fd -> [events, armed, data]
+        pending = {1: [], 2: [], 3: []}   # reaped by poller p, not yet delivered
+        reported = {}                     # t -> set of pollers that reported it while it waited
+        tainted = set()
+        order = {0: [], 1: [], 2: [], 3: []}
+        def apply_ctl(ev):
+            head, res = ev[1:].split('='); p, op, fd, e, d = [int(x) for x in head.split(',')]
+            if int(res) == 0:
+                if op == 1: kern[p][fd] = [e, True, d]; order[p].append(fd)
+                elif op == 3: kern[p][fd] = [e, True, d]
+                elif op == 2:
+                    kern[p].pop(fd, None)
+                    if fd in order[p]: order[p].remove(fd)
+            return p, op, fd, e, d, int(res)
+        for ev in [e for e in init.split(';') if e]:
+            if ev[0] == 'K': apply_ctl(ev)
+        want0 = {911: [1, True, 1], 912: [1, True, 2], 913: [1, True, 3], 901: [1, True, 4]}
+        if kern[0] != want0: return 'init() did not register the three sub-pollers and the eventfd in the engine poller: %s' % kern[0]
+        for si, (tok, chunk) in enumerate(zip(steps, chunks)):
+            evs = [e for e in chunk.split(';') if e]
+            c = tok[0]; a = tok[1:].split(':') if len(tok) > 1 else []
+            A = lambda i: -1 if a[i] == 'inf' else int(a[i])
+            expect = {}            # t -> (ret, errno|None) that MUST be returned in this step
+            engine_call = (c == 'p')
+            newt = None
+            if c == 'w':
+                t, fd, d, tmo = A(0), A(1), A(2), A(3)
+                newt = t
+                if t in wait or t in reported: return 'harness/generator error: thread id %d reused' % t
+                dl = None if tmo < 0 else now + tmo
+                if d == 0: expect[t] = (0, 0)
+                elif fd < 0: expect[t] = (-1, 22)
+                else:
+                    confl = [u for u, w in wait.items() if w['fd'] == fd and (w['ints'] & d & 7)]
+                    if any(not wait[u]['orphan'] for u in confl) and fd not in tainted: expect[t] = (-1, None)
+                    elif confl or fd in tainted:
+                        wait[t] = dict(fd=fd, ints=d, dl=dl, orphan=True)         # may or may not have been registered
+                        tainted.add(fd)
+                    else:
+                        wait[t] = dict(fd=fd, ints=d, dl=dl, orphan=False)
+                        if tmo == 0: expect[t] = (-1, 110); engine_call = True
+            elif c == 'r': ready[A(0)] = A(1)
+            elif c == 'x':
+                fd = A(0); ready[fd] = 0
+                for p in range(4):
+                    kern[p].pop(fd, None)
+                    if fd in order[p]: order[p].remove(fd)
+                for w in wait.values():
+                    if w['fd'] == fd: w['orphan'] = True
+                tainted.add(fd)                                               # closed under a waiter: outside the property's domain
+            elif c == 'i':
+                t, e = A(0), A(1)
+                if t in wait: expect[t] = (-1, e); engine_call = True
+            elif c == 't':
+                now += A(0)
+                for t, w in wait.items():
+                    if w['dl'] is not None and w['dl'] <= now: expect[t] = (-1, 110); engine_call = True
+            old_pending = set(t for p in pending for t in pending[p])
+            returned = {}
+            polled = False
+            # ---- walk through the step's log in order
+            for i, ev in enumerate(evs):
+                if ev[0] == 'K':
+                    p, op, fd, e, d, res = apply_ctl(ev)
+                    if p == 0: return 'epoll_ctl on the engine poller after init: %s' % ev
+                    if op == 1 and res == 0:
+                        if d != newt: return 'a registration was added with data of thread %s during step %s' % (d, tok)
+                        if c != 'w' or fd != A(1) or not (A(2) & self.NDIR[p]):
+                            return 'step %s: thread %s registered fd %d in poller %d which is not what it asked for' % (tok, d, fd, p)
+                        if (e & self.NEV[p]) != self.NEV[p] or not (e & (1 << 30)) or (e & 0x3fffffff & ~(self.NEV[p])):
+                            return 'step %s: registration in poller %d with events %#x' % (tok, p, e)
+                elif ev[0] == 'Q':
+                    p = int(ev[1]); items = [x for x in ev[3:-1].split(',') if x]
+                    rep = [[int(y) for y in x.split(':')] for x in items]
+                    if p == 0:
+                        polled = True
+                        if any(pending[q] for q in pending):
+                            return 'step %s: the engine polled the kernel while reaped events were still undelivered: %s' % (tok, pending)
+                        # the thread whose failure tail makes this call (if any) has already removed its registrations
+                        tail = None
+                        if c != 'p':
+                            for ev2 in evs[i + 1:]:
+                                if ev2[0] == 'T' and ev2.split('=')[1].startswith('-1'): tail = int(ev2[1:].split('=')[0]); break
+                        subs = set(fd - 910 for fd, e, d in rep if 911 <= fd <= 913)
+                        self._n_should = {}
+                        for q in (1, 2, 3):
+                            sh = [t for t, w in wait.items() if t != tail and t not in returned and not w['orphan'] and w['fd'] not in tainted
+                                  and (w['ints'] & self.NDIR[q]) and (ready.get(w['fd'], 0) & self.NBITS[q])]
+                            self._n_should[q] = sh
+                            if sh and q not in subs:
+                                return 'step %s: threads %s wait for a ready descriptor in direction %d but the engine poller does not report poller %d (lost event)' % (tok, sh, self.NDIR[q], q)
+                        self._n_subs = subs
+                        for fd, e, d in rep:
+                            if fd == 901: continue
+                            if not (911 <= fd <= 913) or d != fd - 910: return 'engine poller reported %s' % ev
+                    else:
+                        if p not in getattr(self, '_n_subs', set()): return 'step %s: poller %d reaped although the engine poller did not report it' % (tok, p)
+                        got = [d for fd, e, d in rep]
+                        for fd, e, d in rep:
+                            w = wait.get(d)
+                            k = kern[p].get(fd)
+                            if k: k[1] = False                                    # EPOLLONESHOT: disarmed by the report
+                            if fd in tainted: continue
+                            if w is None or d in returned: return 'step %s: poller %d reported data of thread %s which is not waiting (stale waiter)' % (tok, p, d)
+                            if w['fd'] != fd or not (w['ints'] & self.NDIR[p]):
+                                return 'step %s: poller %d reported fd %d for thread %d which waits for fd %d interests %d' % (tok, p, fd, d, w['fd'], w['ints'])
+                            if not (e & self.NBITS[p]) or (e & ~ready.get(fd, 0)): return 'step %s: poller %d reported events %d, readiness is %d' % (tok, p, e, ready.get(fd, 0))
+                            reported.setdefault(d, set()).add(p)
+                        sh = self._n_should.get(p, [])
+                        miss = [t for t in sh if t not in got]
+                        if miss and len(got) < 16:
+                            return 'step %s: thread(s) %s wait for a ready descriptor (direction %d) but poller %d did not report them: registration lost' % (tok, miss, self.NDIR[p], p)
+                        pending[p] += got
+                elif ev[0] == 'T':
+                    t, r = ev[1:].split('='); t = int(t); ret, err = [int(x) for x in r.split('/')]
+                    if t in returned: return 'thread %d returned twice' % t
+                    returned[t] = (ret, err)
+                    w = wait.get(t)
+                    for p in pending: pending[p] = [x for x in pending[p] if x != t]
+                    if t in expect and (ret, err) == (expect[t][0], err if expect[t][1] is None else expect[t][1]):
+                        continue
+                    if w is not None and t == newt and w['orphan']: continue      # a waiter on a descriptor outside the domain
+                    if ret == 0 and w is not None:
+                        if w['orphan'] or w['fd'] in tainted: continue
+                        if not reported.get(t):
+                            return 'step %s: thread %d (fd %d interests %d) returned 0 although the kernel never reported an event for it (cross-talk)' % (tok, t, w['fd'], w['ints'])
+                        continue
+                    if t in expect: return 'step %s: thread %d returned %s, expected %s' % (tok, t, (ret, err), expect[t])
+                    return 'step %s: thread %d returned %s although nothing happened for it (cross-talk)' % (tok, t, (ret, err))
+                elif ev[0] == 'N':
+                    pass
+                elif ev[0] == 'U': return 'engine caught an unknown event: ' + ev
+            for t, e in expect.items():
+                if t not in returned: return 'step %s: thread %d should have returned %s but stays blocked (lost event/timeout)' % (tok, t, e)
+            for t in returned: wait.pop(t, None)
+            # every event that had been reaped before this step is delivered by the first engine call after it
+            if engine_call:
+                late = [t for p in pending for t in pending[p] if t in old_pending]
+                if late: return 'step %s: thread(s) %s had their event reaped earlier but were not notified by this wait_and_fire_events' % (tok, late)
+                if c == 'p' and not polled and not any(r[0] == 0 for r in returned.values()):
+                    return 'step %s: wait_and_fire_events neither delivered nor polled' % tok
+            # known finding F40: the roll-back of a FAILED add_interest deletes the registration of ANOTHER waiter in a
+            # direction the failing call never added (DEFER `if (ret < 0) rpoller.rm(...)` declared unconditionally)
+            if c == 'w' and newt in returned and returned[newt][0] == -1 and A(1) >= 0:
+                failed = None
+                for ev in evs:
+                    if ev[0] != 'K': continue
+                    head, res = ev[1:].split('='); p, op, fd, e, d = [int(x) for x in head.split(',')]
+                    if op == 1 and int(res) != 0: failed = p
+                    elif op == 2 and int(res) == 0 and failed is not None and p < failed and not (A(2) & self.NDIR[p]) and fd == A(1):
+                        hit = False
+                        for u, w in wait.items():
+                            if w['fd'] == fd and (w['ints'] & self.NDIR[p]) and not w['orphan']:
+                                w['orphan'] = True; hit = True
+                        if hit:
+                            self.known_hits['F40'] = self.known_hits.get('F40', 0) + 1
+                            self.known_first.setdefault('F40', case)
+            # no_cross_talk / engine_kernel_agree: every remaining waiter still has ITS registration, armed or reaped
+            for t, w in wait.items():
+                if w['orphan'] or w['fd'] in tainted: continue
+                for p in (1, 2, 3):
+                    if not (w['ints'] & self.NDIR[p]): continue
+                    k = kern[p].get(w['fd'])
+                    if k is None or k[2] != t or (k[0] & self.NEV[p]) != self.NEV[p] or not (k[0] & (1 << 30)):
+                        return 'after step %s: thread %d waits for fd %d direction %d but the kernel entry in poller %d is %s (registration lost or not its own)' % (tok, t, w['fd'], self.NDIR[p], p, k)
+                    if not k[1] and t not in pending[p]:
+                        return 'after step %s: thread %d waits for fd %d direction %d, its entry is disarmed and no event is pending for it' % (tok, t, w['fd'], self.NDIR[p])
+        blocked = sorted(int(x) for x in m.group(7).split(',') if x)
+        if blocked != sorted(wait): return 'threads blocked at the end %s, expected %s' % (blocked, sorted(wait))
+        if int(m.group(8)) != now: return 'virtual clock ended at %s, expected %d' % (m.group(8), now)
+        rem = m.group(6).split('/')
+        if rem[0]: return 'engine poller has undelivered entries at the end'
+        if not tainted:
+            for p in (1, 2, 3):
+                got = [int(x) for x in rem[p].split(',') if x]
+                if sorted(got) != sorted(pending[p]): return 'poller %d holds reaped events %s, the log implies %s' % (p, got, pending[p])
+                fin = [x for x in m.group(2 + p).split(',') if x]
+                want = ['%d:%d:%d:%d' % (fd, kern[p][fd][0], int(kern[p][fd][1]), kern[p][fd][2]) for fd in order[p]]
+                if fin != want: return 'final interest list of poller %d is %s, the logged epoll_ctl/epoll_wait calls imply %s' % (p, fin, want)
         return None
 
     def _oracle_EC_step(self, c, a, evs, ready, reg, kern):
